@@ -77,8 +77,14 @@ def mk_elem(e):
     raise ValueError(mt)
 
 
+RSI_IDS = set()    # submodel identifiers whose references carry a referredSemanticId (set by the case generators)
+
+
 def sm_ref(smid):
-    return model.ModelReference((model.Key(model.KeyTypes.SUBMODEL, smid),), model.Submodel)
+    rsi = None
+    if smid in RSI_IDS:
+        rsi = model.ExternalReference((model.Key(model.KeyTypes.GLOBAL_REFERENCE, "urn:semantics:" + str(len(smid))),))
+    return model.ModelReference((model.Key(model.KeyTypes.SUBMODEL, smid),), model.Submodel, rsi)
 
 
 def mk_obj(a):
